@@ -2,11 +2,16 @@
 package c07
 
 import (
+	"bufio"
 	"bytes"
+	"encoding/json"
 	"fmt"
 	"os"
+	"os/exec"
 	"path/filepath"
+	"regexp"
 	"strings"
+	"syscall"
 	"time"
 
 	"verifharness/internal/core"
@@ -21,12 +26,28 @@ const depth = 4
 var kinds = []string{"create-then-rename", "create-then-modify", "create-then-delete", "list", "info", "set-comment", "rename", "delete", "move", "move-dest", "new-folder", "alias", "alias-dest", "download", "download-folder",
 	"upload", "upload-folder-target", "upload-folder-items", "new-user", "update-create", "update-rename", "update-delete", "set-user", "delete-user"}
 
+// auditMark, when set (path-audit child), is called right before the hostile request is sent and right after the
+// server is quiescent again, so that a system-call tracer can attribute file accesses to the request.
+var auditMark func(tag string, sb *sandbox, accountZone bool)
+
+var simple *core.Simple
+
 func init() {
-	core.Register(&core.Simple{
+	simple = &core.Simple{
 		Id: "C07", Lvl: "exploration", Quick: 2100, Thorough: 80000, PerBatch: 350, Width: 175, Timeout: 2400,
 		RuleText: "each case builds a sandbox S/l1/l2/l3/l4/root with uniquely named canary files and directories at every level (including .info_root, .rsrc_root and root.incomplete next to the root, and canaries next to the accounts directory), then sends one file-touching or account request (24 kinds incl. two-step account sequences on a hostile existing login, the actual transfer for downloads/uploads and folder-upload item headers on the transfer connection) whose name / path items / new name / destination / item header / login carries a hostile component ('..', '.', '/', empty, absolute, a/../../b, NUL, 255-byte and longer, high bytes, more '..' than the sandbox is deep, count/length prefixes that disagree with the data, names aiming at a canary); oracle: the recursive snapshot (names, types, sizes, hashes, link targets) of everything outside the root (outside Users/ for account requests) is unchanged, no link inside the root points outside, and no canary token appears in any reply or transfer byte. distinct = (request kind, hostile class, placement); non-trivial = every case",
 		Case: runCase,
-	})
+		Extra: func(tier string, seed int64) []core.Batch {
+			n := 420
+			if tier == "thorough" {
+				n = 6000
+			}
+			a, _ := json.Marshal(map[string]int{"cases": n})
+			return []core.Batch{{Name: "path-audit", Args: a, Timeout: 2400}}
+		},
+		RunExtra: runAudit,
+	}
+	core.Register(simple)
 }
 
 type hostile struct {
@@ -213,6 +234,9 @@ func runCase(c *core.Case) {
 		return rep, ok
 	}
 	desc := fmt.Sprintf("%s name=%q path=%x", kind, h.b, p.b)
+	if auditMark != nil {
+		auditMark("B", sb, strings.HasPrefix(kind, "create-then") || strings.Contains(kind, "user") || strings.HasPrefix(kind, "update-"))
+	}
 	switch kind {
 	case "list":
 		placement = "path"
@@ -347,6 +371,9 @@ func runCase(c *core.Case) {
 	cl.Conn.WaitIdle(refclient.Watchdog)
 	srv.Quiesce(refclient.Watchdog)
 	time.Sleep(time.Millisecond)
+	if auditMark != nil {
+		auditMark("E", sb, accountZone)
+	}
 	after := fixture.Snapshot(srv.Dir)
 	rootRel, _ := filepath.Rel(srv.Dir, srv.FileRoot)
 	usersRel := filepath.Join("config", "Users")
@@ -399,4 +426,152 @@ func clip(b []byte) []byte {
 		return b[:255]
 	}
 	return b
+}
+
+// ---------------------------------------------------------------------------------------------
+// path audit: every path argument of a file system call made while a hostile request is being handled
+
+// AuditChild is the entry point of `vcheck c07audit <cases> <seed> <tier>`: it runs cases one after the other and
+// brackets each request with marker system calls (faccessat on /verif-audit/...), to be run under strace -f.
+func AuditChild(n int, seed int64, tier string) int {
+	em, _ := core.NewEmitter("")
+	idx := 0
+	auditMark = func(tag string, sb *sandbox, accountZone bool) {
+		zone := sb.srv.FileRoot
+		if accountZone {
+			zone = filepath.Join(sb.srv.ConfigDir, "Users")
+		}
+		syscall.Access(fmt.Sprintf("/verif-audit/%s/%d%s", tag, idx, zone), 0)
+	}
+	for idx = 0; idx < n; idx++ {
+		// the kinds that end in a transfer sleep 3 s each: none in the quick tier, one in six in the thorough tier
+		k := kinds[idx%len(kinds)]
+		if (k == "download" || k == "download-folder" || strings.HasPrefix(k, "upload")) && (tier == "quick" || (idx/len(kinds))%6 != 0) {
+			continue
+		}
+		simple.RunOne(tier, seed, idx, em)
+	}
+	return 0
+}
+
+var pathArg = regexp.MustCompile(`"((?:[^"\\]|\\.)*)"`)
+
+func unescape(s string) string {
+	// strace prints non-printable bytes as octal/hex escapes; good enough for prefix checks
+	return strings.NewReplacer(`\\`, `\`, `\"`, `"`).Replace(s)
+}
+
+var auditAllow = []string{"/proc/", "/sys/", "/dev/", "/etc/localtime", "/usr/share/zoneinfo", "/etc/nsswitch.conf", "/etc/passwd", "/verif-audit/", "/usr/lib/go", "/etc/mime.types", "/usr/share/mime"}
+
+func runAudit(b core.Batch, em *core.Emitter) {
+	var a struct {
+		Cases int `json:"cases"`
+	}
+	json.Unmarshal(b.Args, &a)
+	scratch := core.ScratchDir()
+	logf := filepath.Join(scratch, "audit.trace")
+	exe, _ := os.Executable()
+	cmd := exec.Command("strace", "-f", "-o", logf, "-e", "trace=%file", exe, "c07audit", fmt.Sprint(a.Cases), fmt.Sprint(b.Seed), b.Tier)
+	cmd.Env = append(os.Environ(), "VERIF_SCRATCH="+filepath.Join(scratch, "srv"))
+	out, err := cmd.CombinedOutput()
+	if err != nil {
+		em.Emit(core.Result{Case: b.Name, Verdict: core.Inconclusive, Msg: fmt.Sprintf("audit child: %v: %s", err, tail(string(out), 1500))})
+		return
+	}
+	f, err := os.Open(logf)
+	if err != nil {
+		em.Emit(core.Result{Case: b.Name, Verdict: core.Inconclusive, Msg: err.Error()})
+		return
+	}
+	defer f.Close()
+	sc := bufio.NewScanner(f)
+	sc.Buffer(make([]byte, 1<<20), 1<<26)
+	cur, zone := -1, ""
+	calls, audited := 0, 0
+	type viol struct {
+		idx  int
+		line string
+		path string
+	}
+	var vs []viol
+	seenCase := map[int]bool{}
+	for sc.Scan() {
+		ln := sc.Text()
+		if i := strings.Index(ln, `"/verif-audit/`); i >= 0 {
+			rest := ln[i+len(`"/verif-audit/`):]
+			var tag string
+			var n int
+			if _, err := fmt.Sscanf(rest, "%1s/%d", &tag, &n); err == nil {
+				if tag == "B" {
+					cur = n
+					z := rest[strings.Index(rest, "/")+1:]
+					z = z[strings.IndexAny(z, "/"):]
+					zone = z[:strings.Index(z, `"`)]
+					seenCase[n] = true
+				} else {
+					cur = -1
+				}
+			}
+			continue
+		}
+		if cur < 0 {
+			continue
+		}
+		for _, m := range pathArg.FindAllStringSubmatch(ln, -1) {
+			p := unescape(m[1])
+			if !strings.HasPrefix(p, "/") {
+				continue // relative arguments (link targets, names relative to an open directory)
+			}
+			calls++
+			cp := filepath.Clean(p)
+			ok := cp == zone || strings.HasPrefix(cp, zone+"/")
+			for _, al := range auditAllow {
+				if strings.HasPrefix(cp, al) {
+					ok = true
+				}
+			}
+			if !ok {
+				vs = append(vs, viol{cur, ln, cp})
+			}
+		}
+		audited++
+	}
+	obs := map[string]int{"audited_system_calls": audited, "audited_path_arguments": calls, "audited_requests": len(seenCase)}
+	if len(seenCase) == 0 {
+		em.Emit(core.Result{Case: b.Name, Verdict: core.Inconclusive, Msg: "no marker found in the trace", Obs: obs})
+		return
+	}
+	reported := map[string]bool{}
+	for _, v := range vs {
+		kind := kinds[v.idx%len(kinds)]
+		base := filepath.Base(v.path)
+		cls := "other"
+		switch {
+		case strings.HasPrefix(base, ".info_"), strings.HasPrefix(base, ".rsrc_"), strings.HasSuffix(base, ".incomplete"):
+			cls = "side-file-of-the-root"
+		case base == filepath.Base(zone) || strings.HasPrefix(zone, v.path):
+			cls = "ancestor-of-the-root"
+		}
+		key := fmt.Sprintf("C07/path-audit/%s/%s", kind, cls)
+		if reported[key] {
+			continue
+		}
+		reported[key] = true
+		em.Emit(core.Result{Case: fmt.Sprintf("%s/case%d", b.Name, v.idx), Class: "audit/" + kind, Verdict: core.Violated, Key: key, Obs: obs,
+			Replay: map[string]any{"index": v.idx, "seed": b.Seed, "tier": b.Tier},
+			Msg:    fmt.Sprintf("while handling hostile request #%d (%s) the server made a file system call on %q, outside %q: %s", v.idx, kind, v.path, zone, tail(v.line, 300))})
+		obs = nil
+	}
+	if len(vs) == 0 {
+		em.Emit(core.Result{Case: b.Name + "/summary", Class: "audit/all-inside", Verdict: core.Held, Obs: obs,
+			Sample: map[string]any{"audited_requests": len(seenCase), "audited_system_calls": audited}})
+		em.Emit(core.Result{Case: b.Name + "/calls", Class: "audit/calls", Verdict: core.Held})
+	}
+}
+
+func tail(s string, n int) string {
+	if len(s) > n {
+		return s[len(s)-n:]
+	}
+	return s
 }
